@@ -244,9 +244,14 @@ def provider_field_stores(sname, fname, maxval, vt=None):
 
 
 def provider_clamp_before_call(callee, field, maxval):
-    """every caller of `callee` clamps <obj>-><field> into [0, maxval] (the idiom  if (x < 0) x = 0; if (x > M) x = M)
-    on the object it passes, before the call, and stores nothing wider afterwards"""
+    """at every call of `callee` the field <obj>-><field> of the object handed over is within [0, maxval] on every path:
+    forward must-analysis with two states (narrow / possibly wide).  Narrow after a store of a value that needs no more
+    bits than maxval, and on the edge where an unsigned comparison of the loaded field with a constant <= maxval says
+    'not greater' (the clamp idiom  if ((u64)x > M) x = M  makes both arms narrow).  Wide at function entry, after
+    any other store to the field, and whenever the pointer variable the object is reached through is re-assigned or
+    handed to a callee (a new object arrives)."""
     def prov(prog, what):
+        from .bounds2 import bits_needed
         g = prog.fn(callee)
         if g is None:
             cands = [f for f in prog.functions() if f.name == callee]
@@ -256,33 +261,82 @@ def provider_clamp_before_call(callee, field, maxval):
         cs = prog.callers_of(g)
         if not cs:
             return False, "%s has no caller" % callee
+
+        def is_field_ptr(p):
+            p = strip_casts(p)
+            return p.is_inst and p.op == "getelementptr" and p.field() and p.field()[1] == field
+
         for c in cs:
             f = c.fn
-            hi = lo = False
+            f.build()
+            # pointer variables (allocas) through which the object is reached
+            pvars = set()
             for i in f.insts():
-                if i.op != "store":
-                    continue
-                p = strip_casts(i.ops[1])
-                if not (p.is_inst and p.op == "getelementptr" and p.field() and p.field()[1] == field):
-                    continue
-                if not f.inst_dominates(i, c) and not f.reaches(i.bb, c.bb):
-                    continue
-                v = i.ops[0]
-                if v.is_const and v.is_int:
-                    for cond, outcome, br in f.guards_at(i.bb):
-                        if cond.is_inst and cond.op == "icmp" and any(n_ == field for (_s, n_) in fields_in_slice(cond)):
-                            k = [o for o in cond.ops if o.is_const and o.is_int]
-                            if k and v.uval == maxval and k[0].uval >= maxval and cond.pred in ("ugt", "sgt") and outcome and f.dominates(br.bb, c.bb):
-                                hi = True
-                            if k and v.uval == 0 and k[0].sval == 0 and cond.pred == "slt" and outcome and f.dominates(br.bb, c.bb):
-                                lo = True
-                else:
-                    from .bounds2 import bits_needed
-                    if bits_needed(v) > maxval.bit_length():
-                        return False, "%s stores an unclamped value into %s before calling %s" % (f.name, field, callee)
-            if not (hi and lo):
-                return False, "%s does not clamp %s into [0, %d] before calling %s" % (f.name, field, maxval, callee)
-        return True, "every caller clamps %s into [0, %d] before the call" % (field, maxval)
+                if i.op in ("load", "store"):
+                    p = i.ops[0] if i.op == "load" else i.ops[1]
+                    if is_field_ptr(p):
+                        base = strip_casts(strip_casts(p).ops[0])
+                        if base.is_inst and base.op == "load":
+                            a = strip_casts(base.ops[0])
+                            if a.is_inst and a.op == "alloca":
+                                pvars.add(id(a))
+
+            def transfer(b, st, upto=None):
+                for i in b.insts:
+                    if upto is not None and i is upto:
+                        break
+                    if i.op == "store":
+                        if is_field_ptr(i.ops[1]):
+                            v = i.ops[0]
+                            if v.is_const and v.is_int:
+                                st = 0 <= v.sval <= maxval or v.uval <= maxval
+                            else:
+                                st = bits_needed(v) <= maxval.bit_length()
+                        elif id(strip_casts(i.ops[1])) in pvars:
+                            st = False
+                    elif i.op == "call":
+                        if any(id(strip_casts(o)) in pvars for o in i.ops):
+                            st = False
+                return st
+
+            def edge(b, s_, st):
+                t = b.term
+                if t.op == "br" and len(t.x["succ"]) == 2 and t.x["succ"][0] is not t.x["succ"][1]:
+                    cnd = t.ops[0]
+                    if cnd.is_inst and cnd.op == "icmp":
+                        x, k = cnd.ops
+                        xv = x
+                        while xv.is_inst and xv.op in ("zext", "sext", "bitcast"):
+                            xv = xv.ops[0]
+                        if xv.is_inst and xv.op == "load" and is_field_ptr(xv.ops[0]) and k.is_const and k.is_int and k.uval <= maxval \
+                                and xv.bb is b and not any(j.op in ("store", "call") for j in b.insts[xv.pos + 1:]):
+                            le_true = cnd.pred in ("ule", "ult")
+                            le_false = cnd.pred in ("ugt", "uge") and (cnd.pred == "ugt" or k.uval >= 1)
+                            if (le_true and s_ is t.x["succ"][0]) or (le_false and s_ is t.x["succ"][1]):
+                                return True
+                return st
+
+            state_in = {b: True for b in f.blocks}
+            state_in[f.blocks[0]] = False
+            changed = True
+            rounds = 0
+            while changed and rounds < 50:
+                changed = False
+                rounds += 1
+                for b in f.blocks:
+                    if b is f.blocks[0]:
+                        continue
+                    preds = [p_ for p_ in f.blocks if b in p_.succs]
+                    if not preds:
+                        continue
+                    new = all(edge(p_, b, transfer(p_, state_in[p_])) for p_ in preds)
+                    if new != state_in[b]:
+                        state_in[b] = new
+                        changed = True
+            if not transfer(c.bb, state_in[c.bb], upto=c):
+                return False, "%s can reach the call of %s with %s not confined to [0, %d] (no clamp and no narrow store on some path)" % (
+                    f.name, callee, field, maxval)
+        return True, "at every call the field %s was clamped into [0, %d] or assigned a narrow value on every path" % (field, maxval)
     return prov
 
 
